@@ -49,7 +49,7 @@ def _init_strategy(tier):
     def init(draw):
         dim = draw(st.sampled_from([2, 3]))
         lo, hi = b[dim]
-        shape = draw(gen.grid_shape(dim, lo, hi))
+        shape = draw(gen.grid_shape(dim, lo, hi, long_axis=70 if dim == 2 else 40))
         return {
             "dim": dim,
             "shape": shape,
